@@ -65,11 +65,12 @@ def main():
         },
         "engines": [
             {"name": "fuzz", "path": "/verif/fuzz", "serves_properties": ["C01", "C07", "C08", "C09", "C20"], "kind_free_text": "cargo-fuzz 0.13 / libFuzzer targets (thorough tier only): bytes -> the same u64 choice words -> the same evaluators as tfcheck; seeded and empty corpus, fixed -runs"},
+            {"name": "iso_runners", "path": "/verif/harness_iso", "serves_properties": ["C11"], "kind_free_text": "two tiny server binaries (harness_iso/std, harness_iso/nostd), each its own cargo workspace compiled with exactly one feature configuration of the copy of /repo's working tree and no other dependency; tfcheck's C11/isolated_configurations sends generated operand words to both over pipes and compares the returned words"},
             {"name": "tfcheck", "path": "/verif/harness/tfcheck", "serves_properties": sorted(CHECKS), "kind_free_text": "proptest 1.11 TestRunner over u64 choice sequences decoded by constructive generators, followed by a targeted-search (hill-climbing on log2(error/bound)) phase; exact dyadic + 384-bit elementary-function oracle (harness/oracle); replay files in replays/<id>/"},
         ],
         "checks": checks,
         "not_applicable": na,
-        "notes": "Genuine defects found on the pinned tree (15) were repaired by fix: commits in /repo and are listed in known_findings.json (status fixed); four sign-of-zero findings of C10 are listed there with status known (KNOWN-FINDING lines, exit 0); see DESIGN.md section 6. seeded/ holds 160 independently written breaking changes with which the checks were exercised (DESIGN.md section 11).",
+        "notes": "Genuine defects found on the pinned tree (15) were repaired by fix: commits in /repo and are listed in known_findings.json (status fixed); four sign-of-zero findings of C10 are listed there with status known (KNOWN-FINDING lines, exit 0); see DESIGN.md section 6. seeded/ holds 200 independently written breaking changes with which the checks were exercised (DESIGN.md section 11).",
     }
     json.dump(m, open("MANIFEST.json", "w"), indent=1)
     print("checks:", len(checks), "not_applicable:", len(na))
